@@ -201,6 +201,24 @@ def run(chk, tier, seed, replay=None):
         if rng.random() < 0.4:
             c['world']['env']['fd2_at_exit_nonl'] = True
     cases += qcases
+    # --repeat N: a test that fails in the first iteration only (state left over
+    # from the first run); the failure happened, whatever later iterations do
+    rcases = corecheck.gen_cases(rng, graphs, 10 if tier == 'quick' else 120,
+                                 dict(prof_good, outcomes=['pass'], faults=(0.0, 0.0, 0.0),
+                                      tests_per_layer=(1, 2), unit_tests=(1, 2)), 'r')
+    for c in rcases:
+        c['o'] = {'verbose': rng.choice([0, 1]), 'repeat': rng.choice([2, 3])}
+        tid = rng.choice(sorted(c['world']['tests']))
+        c['world']['tests'][tid] = dict(worlds.OUTCOMES['fail'], kind='fail',
+                                        body=[{'a': 'fail', 'only_iter': 1}])
+        r = rng.random()
+        if r < 0.35:
+            c['o']['j'] = 2
+            c['mode'] = 'cli'
+        elif r < 0.6:
+            force_children(rng, c['world'], c['o'])
+            c['mode'] = 'cli'
+    cases += rcases
     for c in cases[:2] + tcases[:2]:
         chk.sample({'world': c['world'], 'options': c['o'], 'mode': c['mode'],
                     'trouble': c.get('trouble', '')})
